@@ -4,7 +4,7 @@ import SqlModel.Splitter
 /-!
 # SqlProofs.LexDictWords — which dictionary words are tokens of the word rule
 
-`dict_words_certified` is a computation (kernel evaluation, ≈ 1 minute) over the generated keyword dictionaries × the generated rule
+`dict_words_certified` is a computation (kernel evaluation, ≈ 30 s) over the generated keyword dictionaries × the generated rule
 table: every dictionary entry except the listed ones satisfies `wordCert`, the hypothesis of the universal theorem `word_token`.
 The listed exceptions are the words for which a dedicated earlier rule exists (their result is *evaluated* on the representative context
 `w;` in `dedicated_rules`), `WITH` (rule 44 `(AT|WITH')…` cannot be excluded without knowing the delimiter is not `'`), and four entries
@@ -22,17 +22,19 @@ def uncertified : List Text :=
    txt "VALUES", txt "WITH"]
 
 set_option maxRecDepth 100000 in
-/-- table obligation (evaluated): exactly these dictionary entries fail the certificate -/
-theorem dict_words_certified : dictWords.filter (fun w => !wordCert w) = uncertified := by decide +kernel
+/-- table obligation (evaluated, ≈ 30 s): every dictionary entry passes the certificate or is one of the listed exceptions
+(insensitive to the order of the dictionaries and of their entries) -/
+theorem dict_words_certified : (dictWords.all fun w => wordCert w || uncertified.contains w) = true := by decide +kernel
+
+/-- the list of exceptions is tight: none of the listed entries passes the certificate -/
+theorem uncertified_tight : (uncertified.all fun w => !wordCert w) = true := by decide +kernel
 
 theorem wordCert_of_dict (w : Text) (hw : w ∈ dictWords) (hn : w ∉ uncertified) : wordCert w = true := by
-  cases h : wordCert w with
-  | true => rfl
-  | false =>
-    exfalso
-    apply hn
-    rw [← dict_words_certified]
-    simp [List.mem_filter, hw, h]
+  have := dict_words_certified
+  simp only [List.all_eq_true, Bool.or_eq_true, List.contains_iff_mem] at this
+  rcases this w hw with h | h
+  · exact h
+  · exact absurd h hn
 
 /-- **dictionary words.** Every dictionary word other than the listed exceptions, spelled as in the dictionary (upper case), standing
 anywhere in any text before a delimiter (not `[$#\w]`, not whitespace, not `(`, not `.`) and not right after a `.`: no earlier rule matches,
@@ -47,9 +49,9 @@ theorem dict_word_token (s : Array Cp) (p : Nat) (pre w rest : List Cp) (c : Cp)
 theorem dict_word_in_output (s : Array Cp) (p : Nat) (pre w rest : List Cp) (c : Cp)
     (hw : w ∈ dictWords) (hn : w ∉ uncertified)
     (h : s.toList = pre ++ w ++ c :: rest) (hp : pre.length = p) (hprev : pre.getLast? ≠ some 46) (hc : WordDelim c)
-    (hb : Boundary defaultCfg (defaultCfg.env s) p) :
+    (hb : ScanBoundary defaultCfg (defaultCfg.env s) p) :
     ∃ ts before after, lex defaultCfg s = .ok ts ∧ ts = before ++ ⟨isKeyword defaultCfg w, w⟩ :: after ∧
-      textLen before = p ∧ Boundary defaultCfg (defaultCfg.env s) (p + w.length) := by
+      textLen before = p ∧ ScanBoundary defaultCfg (defaultCfg.env s) (p + w.length) := by
   have hfm := dict_word_token s p pre w rest c hw hn h hp hprev hc
   obtain ⟨ts, before, after, h1, h2, h3, h4⟩ := lex_emits_act s p .kw _ hb hfm
   have hv : (s.extract p (p + w.length)).toList = w :=
@@ -84,6 +86,10 @@ theorem uncertified_covered :
 /-- table obligation: dictionary keys are ASCII -/
 theorem dict_ascii : (dictWords.all fun w => w.all fun c => decide (c < 128)) = true := by decide +kernel
 
+theorem lt128_of_fold (a : Nat) (h : asciiFold a < 128) : a < 128 := by
+  unfold asciiFold at h
+  split at h <;> omega
+
 theorem ascii_of_sameFold : ∀ (w' w : Text), w'.map asciiFold = w.map asciiFold → (∀ c ∈ w, c < 128) → ∀ c ∈ w', c < 128 := by
   intro w'
   induction w' with
@@ -98,8 +104,7 @@ theorem ascii_of_sameFold : ∀ (w' w : Text), w'.map asciiFold = w.map asciiFol
       rcases hc with rfl | hc
       · have hy := asciiFold_lt y (hw y (by simp))
         rw [← h.1] at hy
-        unfold asciiFold at hy
-        split at hy <;> omega
+        exact lt128_of_fold _ hy
       · exact ih ys h.2 (fun z hz => hw z (by simp [hz])) c hc
 
 /-- **dictionary words in any casing.** For a dictionary word `w` other than the listed exceptions and any spelling `w'` of it that
@@ -122,9 +127,9 @@ theorem dict_word_any_case (s : Array Cp) (p : Nat) (pre w w' rest : List Cp) (c
 theorem dict_word_any_case_in_output (s : Array Cp) (p : Nat) (pre w w' rest : List Cp) (c : Cp)
     (hw : w ∈ dictWords) (hn : w ∉ uncertified) (hcase : w'.map asciiFold = w.map asciiFold)
     (h : s.toList = pre ++ w' ++ c :: rest) (hp : pre.length = p) (hprev : pre.getLast? ≠ some 46) (hc : WordDelim c)
-    (hb : Boundary defaultCfg (defaultCfg.env s) p) :
+    (hb : ScanBoundary defaultCfg (defaultCfg.env s) p) :
     ∃ ts before after, lex defaultCfg s = .ok ts ∧ ts = before ++ ⟨isKeyword defaultCfg w, w'⟩ :: after ∧
-      textLen before = p ∧ Boundary defaultCfg (defaultCfg.env s) (p + w'.length) := by
+      textLen before = p ∧ ScanBoundary defaultCfg (defaultCfg.env s) (p + w'.length) := by
   obtain ⟨hfm, hty⟩ := dict_word_any_case s p pre w w' rest c hw hn hcase h hp hprev hc
   obtain ⟨ts, before, after, h1, h2, h3, h4⟩ := lex_emits_act s p .kw _ hb hfm
   have hv : (s.extract p (p + w'.length)).toList = w' :=
